@@ -27,7 +27,7 @@ DISTINCT_KEY = "cases"
 NSHARDS = {"quick": 8, "thorough": 16}
 FLOORS = {"quick": {"contract_judged": 3000, "values_checked": 20000, "histories": 250, "histories_with_missing_read": 40,
                     "distinct:classes": 200},
-          "thorough": {"contract_judged": 60000, "values_checked": 400000, "histories": 15000,
+          "thorough": {"contract_judged": 35000, "values_checked": 400000, "histories": 15000,
                        "histories_with_missing_read": 2000, "distinct:classes": 210}}
 ASSUMPTIONS = ["mf/reader.py scans text the way MapServer's lexer classes do (# starts a comment outside strings)",
                "the lexical class required for a value is decided with mf/vocab.py and is two-sided only where the statement is unambiguous"]
